@@ -191,7 +191,22 @@ def speak_line_number(speak):
     m = re.match(r'^(\d{1,2})\s*([a-z])\s+', s)
     if m:
         return m.group(1) + m.group(2)
+    # a section heading read out before the line number ("Refund. 34. If line 33 ...", "Income. Attach ... see instructions. 1a. Total ...")
+    h = re.search(r'(?<=[.?]\s)(\d{1,2}\s?[a-z]?\.\s)', s)
+    if h and h.start() <= 300 and not re.search(r'\blines?\s+\d', s[:h.start()], re.I) and not re.match(r'^\s*\d', s):
+        return speak_line_number(s[h.start():])
     return None
+
+
+def strip_heading(speak):
+    """The accessibility text without a leading section heading (see speak_line_number)."""
+    s = (speak or '').strip()
+    if re.match(r'^(?:Line\s+)?\d{1,2}\s*[a-z]?\s*[.:]\s', s) or re.match(r'^\d{1,2}\s*[a-z]\s+', s):
+        return s
+    h = re.search(r'(?<=[.?]\s)(\d{1,2}\s?[a-z]?\.\s)', s)
+    if h and h.start() <= 300 and not re.search(r'\blines?\s+\d', s[:h.start()], re.I) and not re.match(r'^\s*\d', s):
+        return s[h.start():]
+    return s
 
 
 def page_text(pdf_path):
